@@ -512,16 +512,19 @@ def run_mixed(ctx, terms, meta):
         # handler and the harness's snapshot of the call counters; a wrong rule in Compile fails every time)
         probe = _Probe()
         e2e_oracle(probe, inp, o, False)
-        if probe.keys:
-            suspects.append((inp, o, sorted(probe.keys)))
         fc = final_class(o)
         hk = "e2e-mix-final-%s" % ["nil", "abort", "invalid", "unreported"][fc]
         ctx.hist[hk] = ctx.hist.get(hk, 0) + 1
-        terms.append("CE2E %d %s %d %d %d" % (max(inp["abort"], 0), coq_bool(inp["abort"] < 0), o["err_calls"], o["warn_calls"], fc))
-        meta.append((inp, o))
+        term = "CE2E %d %s %d %d %d" % (max(inp["abort"], 0), coq_bool(inp["abort"] < 0), o["err_calls"], o["warn_calls"], fc)
+        if probe.keys:
+            # judged (oracle and model) only if the outcome is confirmed below
+            suspects.append((inp, o, sorted(probe.keys), term))
+        else:
+            terms.append(term)
+            meta.append((inp, o))
     if suspects:
-        again = ctx.impl("reporter", [inp for inp, _, _ in suspects for _ in range(2)], shards=1)
-        for k, (inp, o, keys) in enumerate(suspects):
+        again = ctx.impl("reporter", [inp for inp, _, _, _ in suspects for _ in range(2)], shards=1)
+        for k, (inp, o, keys, term) in enumerate(suspects):
             confirmed = set(keys)
             for o2 in again[2 * k:2 * k + 2]:
                 probe = _Probe()
@@ -530,7 +533,12 @@ def run_mixed(ctx, terms, meta):
                     confirmed &= probe.keys
             if confirmed:
                 e2e_oracle(ctx, inp, o, False)
+                terms.append(term)
+                meta.append((inp, o))
             else:
+                # a one-off outcome: a task that nobody waits for (an implicit dependency, a sibling of a failed import) reported
+                # in the instant between Compile's last look at the handler and the harness's snapshot of the reporter's call
+                # counters, so the snapshot does not describe what Compile saw; neither the oracle nor the model judges it
                 ctx.extra["e2e_mix_unconfirmed_outcomes"] = ctx.extra.get("e2e_mix_unconfirmed_outcomes", 0) + 1
     ctx.sample(runs[0]); ctx.sample(runs[len(runs) // 2])
     ctx.extra["e2e_mix_requests"] = len(specs)
